@@ -2,7 +2,7 @@ SPECIFICATION Spec
 CONSTANTS
   Level = 1
   RunDurs = {0, 1, 4}
-  MaxOps = 5
+  MaxOps = 4
   MaxNow = 12
   EmitHist = FALSE
 VIEW view
